@@ -30,6 +30,17 @@ def run(ctx):
     summ2, fails2 = L.replay(ctx, binp, scen, lines, "rules-c", compress=True)
     L.report(ctx, "Rules", fails2, ("verdict", "utxo", "tip"))
     replayed += summ2["lines"]
+    # family Wrap: 8785 outputs, each in range, total 2^64 + 1000 (the running-total rule of the money range)
+    rw = L.mc(ctx, "Wrap", 2)
+    if rw.invariant:
+        raise Infra("design-level counterexample in Ledger/Wrap (%s)\n%s" % (rw.invariant, rw.tail))
+    rw.require_ok("mc Wrap")
+    exw, linesw, scenw, nw = L.export(ctx, "Wrap", 2, "wrap")
+    summw, failsw = L.replay(ctx, binp, scenw, linesw, "wrap", workers=4)
+    L.report(ctx, "Wrap", failsw, ("verdict", "utxo", "tip", "later"))
+    replayed += summw["lines"]
+    states += rw.distinct
+    transitions += rw.generated
     if not quick:
         ex3, lines3, scen3, n3 = L.export(ctx, "Rules", 5, "rules-sim", emitat=5, simulate="num=3000", depth=5)
         summ3, fails3 = L.replay(ctx, binp, scen3, lines3, "rules-sim")
@@ -51,7 +62,7 @@ def run(ctx):
     ctx.cov["recorded_random_histories"] = hist
     ctx.level = "model_checking"
     ctx.cov.update({"states": states, "transitions": transitions, "traces_validated_against_impl": replayed,
-                    "exhaustive": True, "families": ["Rules"], "depth": depth,
+                    "exhaustive": True, "families": ["Rules", "Wrap"], "depth": depth,
                     "rule": "all delivery sequences of length <= depth over the 31-block Rules universe (one valid block and per rule a block violating only that rule, two levels); every transition replayed on lib/chain with plain and compressed UTXO records"})
     ctx.assumptions += ["valid spends are built with gocoin's own ECDSA signer / anyone-can-spend scripts; script semantics are C01-C03",
                         "all blocks at minimum difficulty; subsidy eras beyond the first are not reached on-chain"]
